@@ -91,6 +91,7 @@ structure Upd where
   vfrom : Str
   vto : Str
   transitive : Bool
+  ty : Str := []       -- `PackageUpdate.Type` as far as the universes vary it: the npm alias (dep.KnownAs) the requirement is known as, [] = none
 deriving DecidableEq, Repr
 
 structure Patch where
@@ -128,6 +129,20 @@ def parseMajor (s : Str) : Option Nat :=
     else some (ds.foldl (fun acc d => acc * 10 + (d - 48)) 0)
   | _ => none
 
+/-- `slices.CompareFunc(a, b, cmp)`: the first differing position decides, otherwise the shorter list comes first -/
+def cmpList {β} (c : β → β → Int) : List β → List β → Int
+  | [], [] => 0
+  | [], _ :: _ => -1
+  | _ :: _, [] => 1
+  | a :: as, b :: bs => if c a b ≠ 0 then c a b else cmpList c as bs
+
+/-- step 6 for one update: VersionTo, VersionFrom (as strings), Transitive (false first), Type -/
+def tieUpd (x y : Upd) : Int :=
+  if cmpStr x.vto y.vto ≠ 0 then cmpStr x.vto y.vto else
+  if cmpStr x.vfrom y.vfrom ≠ 0 then cmpStr x.vfrom y.vfrom else
+  if x.transitive ≠ y.transitive then (if y.transitive then -1 else 1) else
+  cmpStr x.ty y.ty        -- dep.Type.Compare: no attribute before any alias, aliases by string
+
 def ratio (a : Patch) : Int := (a.fixed.length : Int) - (a.introduced.length : Int)
 def nupd (a : Patch) : Int := (a.updates.length : Int)
 
@@ -146,7 +161,14 @@ def Patch.compare (vc : Str → Str → Int) (a b : Patch) : Int :=
   let c := zipCmp (fun x y => cmpStr x.name y.name) a.updates b.updates
   if c ≠ 0 then c else
   -- 5. dependency bump amount [asc]
-  zipCmp (fun x y => vc x.vto y.vto) a.updates b.updates
+  let c := zipCmp (fun x y => vc x.vto y.vto) a.updates b.updates
+  if c ≠ 0 then c else
+  -- 6. tie-breakers (fix 09778cd0): only patches that are the same in every field compare equal
+  let c := zipCmp tieUpd a.updates b.updates
+  if c ≠ 0 then c else
+  let c := cmpList cmpStr a.fixed b.fixed
+  if c ≠ 0 then c else
+  cmpList cmpStr a.introduced b.introduced
 
 /-- the `less` that `slices.SortFunc(allResults, cmpFn)` sorts by -/
 def patchLt (vc : Str → Str → Int) (a b : Patch) : Bool := decide (Patch.compare vc a b < 0)
@@ -198,7 +220,7 @@ def computePatches (patchFn : Task → Option Patch) (grouped : Bool) (vc : Str 
 (npm: package name + `KnownAs`; an alias `"y": "npm:x@1"` is a second key for a package named x, so NAMES may repeat), the
 patched manifest has the same keys as the original, every requirement is direct, vulnerabilities carry no subgraphs and
 ids are distinct within a list; no attempt moves two same-named requirements from the same version to the same version
-(their relative order would be decided by `dep.Type.Compare`, which is not modelled). -/
+(`dep.Type` is modelled only as the alias string). -/
 
 structure Req where
   name : Str
@@ -208,19 +230,20 @@ deriving DecidableEq, Repr
 
 def lookupReq (rs : List Req) (k : Str) : Option Str := (rs.find? (fun r => r.key = k)).map (·.version)
 
-/-- `cmpFn` of ConstructPatches on (Name, VersionFrom, VersionTo) -/
+/-- `cmpFn` of ConstructPatches on (Name, VersionFrom, VersionTo, Type) -/
 def updLt (a b : Upd) : Bool :=
   if ltBytes a.name b.name then true else if ltBytes b.name a.name then false
   else if ltBytes a.vfrom b.vfrom then true else if ltBytes b.vfrom a.vfrom then false
-  else ltBytes a.vto b.vto
+  else if ltBytes a.vto b.vto then true else if ltBytes b.vto a.vto then false
+  else ltBytes a.ty b.ty
 
 def constructPatch (oldReqs : List Req) (oldVulns : List Str) (newReqs : List Req) (newVulns : List Str) : Patch :=
   let fixed := isort ltBytes (oldVulns.filter (fun v => !newVulns.contains v))
   let intro := isort ltBytes (newVulns.filter (fun v => !oldVulns.contains v))
   let ups := newReqs.filterMap fun r =>
     match lookupReq oldReqs r.key with
-    | none => some ⟨r.name, [], r.version, true⟩                       -- new key: management origin, transitive
-    | some ov => if r.version = ov then none else some ⟨r.name, ov, r.version, false⟩
+    | none => some ⟨r.name, [], r.version, true, []⟩                   -- new key: management origin, transitive
+    | some ov => if r.version = ov then none else some ⟨r.name, ov, r.version, false, if r.key = r.name then [] else r.key⟩
   ⟨isort updLt ups, fixed, intro⟩
 
 end Scalibr.Worklist
